@@ -1,0 +1,27 @@
+//go:build verif
+
+package mysql
+
+import (
+	"github.com/cossacklabs/acra/decryptor/base"
+	encryptor "github.com/cossacklabs/acra/encryptor/base"
+	"github.com/cossacklabs/acra/encryptor/mysql"
+)
+
+// Verification hook (add-only, compiled with -tags verif only).
+
+// VerifS55WriteChain returns the non-nil DataEncryptors of the query encryptors among the handler's query
+// observers (the queryDataEncryptor proxyFactory.New hands to mysql.NewQueryEncryptor), in observer order.
+func VerifS55WriteChain(p base.Proxy) []encryptor.DataEncryptor {
+	var out []encryptor.DataEncryptor
+	am, ok := p.(*Handler).queryObserverManager.(*mysql.ArrayQueryObservableManager)
+	if !ok {
+		return nil
+	}
+	for _, o := range am.VerifS55Observers() {
+		if v, ok := o.(*mysql.QueryDataEncryptor); ok && v.VerifS55DataEncryptor() != nil {
+			out = append(out, v.VerifS55DataEncryptor())
+		}
+	}
+	return out
+}
